@@ -1,8 +1,27 @@
-(* C06 -- placeholder until Proofs/WriterProofs.v is in place (initial-state instance only). *)
-From Coq Require Import ZArith List.
-From DRF Require Import Model.WriterCore.
+(* C06 -- Self-describing data files.  Index invariants of every file in every reachable state. *)
+From Coq Require Import ZArith List Bool.
+From DRF Require Import Model.WriterCore Proofs.WriterInv.
+Import ListNotations.
 Local Open Scope Z_scope.
 
-Theorem C06_initial_partial : w_files init_state = nil.
-Proof. exact eq_refl. Qed.
-Print Assumptions C06_initial_partial.
+(* C06_file c a: the block index of a has at least one row, its first offset is 0 and its first sample
+   is not before the file's window; consecutive rows have strictly increasing samples and offsets and
+   never overlap (offset step <= sample step); every offset is inside the stored data; the last block
+   ends inside the window; and the file holds no more samples than its window has slots.
+   Proved for every file (finalized or open) after ANY history of single-block calls -- accepted or
+   rejected, any lengths, any gaps, any number of files per call -- in chunked mode. *)
+Theorem C06_index_invariants_single_chunked_partial : forall c ops, vcfg c -> c_chunk c = true ->
+  Forall (fun op => 0 <= fst op) ops ->
+  Forall (C06_file c) (all_files (fold_left (model_step c) ops init_state)).
+Proof. exact reachable_files_C06. Qed.
+Print Assumptions C06_index_invariants_single_chunked_partial.
+
+(* the hypotheses are satisfiable and the model really produces several files with several rows *)
+Theorem C06_example : 
+  let c := mkCfg 150000000000 100 1 1 100 false true in
+  let ops := [(3, [1; 2; 3; 4; 5; 6; 7; 8; 9; 10; 11; 12]); (2, [99]); (20, [13; 14])] in
+  let st := fold_left (model_step c) ops init_state in
+  vcfg c /\ w_gi st = 22 /\ length (all_files st) = 3%nat /\
+  lookup_st st 150000000014 = Some 12 /\ lookup_st st 150000000015 = None /\ lookup_st st 150000000021 = Some 14.
+Proof. exact refinement_example. Qed.
+Print Assumptions C06_example.
